@@ -105,6 +105,8 @@ WfEvpnRoute(t, v) ==
      [] t = 2 -> Len(v) >= 33 /\ v[23] = 48 /\ IpLenOk(v[30]) /\ (Len(v) - 30 - v[30] \div 8) \in {3, 6}
      [] t = 3 -> Len(v) >= 13 /\ IpLenOk(v[13]) /\ v[13] # 0 /\ Len(v) = 13 + v[13] \div 8
      [] t = 4 -> Len(v) >= 19 /\ IpLenOk(v[19]) /\ v[19] # 0 /\ Len(v) = 19 + v[19] \div 8
+     \* IP prefix route (RFC 9136 3.1): prefix and gateway of one family, 34 or 58 octets, prefix length within the family
+     [] t = 5 -> Len(v) \in {34, 58} /\ v[23] <= (IF Len(v) = 34 THEN 32 ELSE 128)
      [] OTHER -> TRUE
 WfEvpnList(b) ==
    /\ WfTlvs(b, 1, 1)
@@ -285,6 +287,12 @@ EncVecs(lazy) ==
    {[kind |-> "enc", sub |-> "srpol", u |-> p] : p \in PolicyPool}
    \cup {[kind |-> "enc", sub |-> "pmsi", u |-> p] : p \in PmsiPool}
    \cup {[kind |-> "enc", sub |-> "srte", u |-> n] : n \in SrtePool}
+   \* EVPN IP prefix routes (type 5; the agent constructs them, C07 does not list them): IPv4 / IPv6 prefix, gateway of the
+   \* same family or left out of the request, announced and withdrawn
+   \cup {e \in {[kind |-> "enc", sub |-> "evpn5", u |-> [reach |-> r, pa |-> p[1], pl |-> p[2], gw |-> g, label |-> l]] :
+            r \in BOOLEAN, l \in {0, 16, 1048575},
+            p \in {<<<<10, 1, 0, 0>>, 16>>, <<<<0, 0, 0, 0>>, 0>>, <<<<10, 1, 2, 3>>, 32>>, <<A6a, 64>>, <<A6a, 128>>, <<Zeros(16), 0>>},
+            g \in {<<>>, <<10, 0, 0, 1>>, <<0, 0, 0, 0>>, Nh6, Zeros(16)}} : e.u.gw = <<>> \/ Len(e.u.gw) = Len(e.u.pa)}
    \* PMSI tunnel attribute next to an EVPN inclusive-multicast route and an Encapsulation extended community (the label
    \* field then holds a 24-bit VNI for VXLAN 8 / NVGRE 9; for the other tunnel types construction fails or stays valid)
    \cup {[kind |-> "enc", sub |-> "pmsievpn", u |-> [p |-> p, encap |-> n, form |-> f]] :
@@ -295,6 +303,7 @@ EncVecs(lazy) ==
 \* values for which the RFCs define an encoding (the others are in the pool to see that construction fails or stays valid)
 ValidEnc(v) ==
    CASE v.sub = "pmsievpn" -> TRUE
+     [] v.sub = "evpn5" -> v.u.gw = <<>> \/ Len(v.u.gw) = Len(v.u.pa)
      [] v.sub = "pmsi" -> (v.u.ttype = 0 => v.u.id = <<>>) /\ (v.u.ttype = 6 => v.u.id # <<>>) /\ (v.u.ttype \notin {0, 6} => v.u.id = <<>>)
      [] v.sub = "srte" -> Len(v.u.nh) \in {4, 16}
      [] v.sub = "srpol" -> \A i \in 1..Len(v.u.name) : v.u.name[i] < 128
@@ -305,6 +314,13 @@ EncBytes(v) ==
        mp(val) == LET a == EncAttrs(MpBase, TRUE, FALSE) \o AttrTLV(14, val, TRUE) IN Message(2, U16(0) \o U16(Len(a)) \o a)
    IN CASE v.sub = "srpol" -> withAttr(23, EncTunnelEncaps(v.u), TRUE)
         [] v.sub = "pmsi" -> withAttr(22, EncPmsi(v.u), FALSE)
+        [] v.sub = "evpn5" ->
+              LET gw == IF v.u.gw = <<>> THEN Zeros(Len(v.u.pa)) ELSE v.u.gw
+                  rt == EncRd(Rd0) \o Zeros(10) \o U32hl(<<0, 100>>) \o <<v.u.pl>> \o v.u.pa \o gw \o EncLabel(v.u.label, TRUE)
+                  nl == <<5, Len(rt)>> \o rt
+                  a == IF v.u.reach THEN EncAttrs(MpBase, TRUE, FALSE) \o AttrTLV(14, U16(25) \o <<70, 4>> \o Nh4 \o <<0>> \o nl, TRUE)
+                       ELSE AttrTLV(15, U16(25) \o <<70>> \o nl, TRUE)
+              IN Message(2, U16(0) \o U16(Len(a)) \o a)
         [] v.sub = "pmsievpn" ->
               LET rt == <<3, [rd |-> Rd0, tag |-> <<0, 0>>, ip |-> <<192, 168, 0, 1>>]>>
                   lab == IF v.u.form = "list" /\ v.u.encap \in {8, 9} THEN U24(v.u.p.label) ELSE U24(v.u.p.label * 16)
